@@ -197,6 +197,7 @@ type controlsEvidence struct {
 	Flipped     int      `json:"flipped"`
 	Unbuildable int      `json:"unbuildable"`
 	Redundant   []string `json:"redundant_witness,omitempty"`
+	UnbuildableList []string `json:"unbuildable_list,omitempty"`
 	Samples     []string `json:"samples,omitempty"`
 	failed      string
 }
